@@ -33,6 +33,7 @@ func c06(c *Ctx) {
 	c06barrierPanic(c)
 	c06retryChain(c)
 	c06optionsForwarded(c)
+	c06codec(c)
 }
 
 // isCeilSeconds: s is int(math.Ceil(X.Seconds())); returns X.
